@@ -501,6 +501,15 @@ def layer_order_bottom_up(fc, sw, cell_loop):
             return (r[1], r[0], -r[2]) if r else None
         if isinstance(e, ast.Call) and isinstance(e.func, ast.Name) and e.func.id == "list" and len(e.args) == 1:
             return seq_of(e.args[0])
+        if isinstance(e, ast.Call) and norm_src(e.func) in ("islice", "itertools.islice") and len(e.args) == 2 and not e.keywords:
+            # islice(X, n): the first min(n, len X) elements of X
+            r = seq_of(e.args[0])
+            cnt = val(e.args[1])
+            if r is None or cnt is None:
+                return None
+            size = (r[1] - r[0]) * r[2] + 1
+            k = sp.Min(cnt, size)
+            return r[0], sp.simplify(r[0] + r[2] * (k - 1)), r[2]
         if isinstance(e, ast.Call) and isinstance(e.func, ast.Name) and e.func.id == "zip" and len(e.args) == 2 and not e.keywords and \
                 isinstance(e.args[0], ast.Call) and norm_src(e.args[0].func) == "range" and len(e.args[0].args) == 1:
             # zip(range(n), X): the first min(n, len X) elements of X
